@@ -122,7 +122,42 @@ def _irregular(n, tile, variant):
     return tuple(out)
 
 
-def build_xx(yx, layout, dtype, nodata, src_chunks, tile=(16, 16), noisy=False):
+MEMORY = ("C", "F-source", "F-blocks", "copied-blocks", "lazy-transpose", "reversed-view")
+
+
+class _AsFortran:
+    """map_blocks callables as objects (picklable, deterministic dask names)"""
+
+    def __call__(self, b):
+        return np.asfortranarray(b)
+
+
+class _Copy:
+    def __call__(self, b):
+        return np.array(b, order="K", copy=True)
+
+
+def _with_memory(arr, data, memory, chunks):
+    """The same pixels delivered in another memory layout: Fortran-ordered source, Fortran-contiguous blocks (a loader
+    that returns order='F'), freshly copied blocks, a lazily transposed array, a negative-stride view."""
+    if memory == "C":
+        return arr
+    if memory == "F-source":
+        return da.from_array(np.asfortranarray(data), chunks=chunks)
+    if memory == "F-blocks":
+        return arr.map_blocks(_AsFortran(), dtype=arr.dtype)
+    if memory == "copied-blocks":
+        return arr.map_blocks(_Copy(), dtype=arr.dtype)
+    if memory == "lazy-transpose":
+        axes = tuple(reversed(range(data.ndim)))
+        tch = tuple(reversed(chunks)) if isinstance(chunks, tuple) else chunks
+        return da.from_array(np.ascontiguousarray(data.transpose(axes)), chunks=tch).transpose(axes)
+    if memory == "reversed-view":
+        return da.from_array(data[::-1].copy()[::-1], chunks=chunks)
+    raise ValueError(memory)
+
+
+def build_xx(yx, layout, dtype, nodata, src_chunks, tile=(16, 16), noisy=False, memory="C"):
     shape, n = layout_shape(yx, layout)
     data = make_data(shape, dtype, noisy)
     gbox = GeoBox(yx, A0, CRS_)
@@ -137,11 +172,14 @@ def build_xx(yx, layout, dtype, nodata, src_chunks, tile=(16, 16), noisy=False):
         cy, cx = src_chunks
     kw = {} if nodata is None else dict(nodata=nodata)
     if layout == "YX":
-        xx = wrap_xr(da.from_array(data, chunks=(cy, cx)), gbox, **kw)
+        ch = (cy, cx)
+        xx = wrap_xr(_with_memory(da.from_array(data, chunks=ch), data, memory, ch), gbox, **kw)
     elif layout[0] == "YXS":
-        xx = wrap_xr(da.from_array(data, chunks=(cy, cx, band_chunk or n)), gbox, **kw)
+        ch = (cy, cx, band_chunk or n)
+        xx = wrap_xr(_with_memory(da.from_array(data, chunks=ch), data, memory, ch), gbox, **kw)
     else:
-        xx = wrap_xr(da.from_array(data, chunks=(n if band_chunk is None and isinstance(src_chunks, str) else 1, cy, cx)), gbox,
+        ch = (n if band_chunk is None and isinstance(src_chunks, str) else 1, cy, cx)
+        xx = wrap_xr(_with_memory(da.from_array(data, chunks=ch), data, memory, ch), gbox,
                      time=[f"2020-01-{i + 1:02d}" for i in range(n)], **kw)
     return xx, data, gbox
 
@@ -289,7 +327,8 @@ def _ifd_end(tf):
 
 def write_and_inspect(case_desc, yx, layout, dtype, ndkind, blocksize, src_chunks, r: R, cls: str, **kw):
     nodata = nodata_for(dtype, ndkind)
-    xx, data, gbox = build_xx(yx, layout, dtype, nodata, src_chunks, tile=kw.pop("_tile", (16, 16)), noisy=kw.pop("_noisy", False))
+    xx, data, gbox = build_xx(yx, layout, dtype, nodata, src_chunks, tile=kw.pop("_tile", (16, 16)), noisy=kw.pop("_noisy", False),
+                              memory=kw.pop("_memory", "C"))
     td = tempfile.mkdtemp(prefix="vf-c05-")
     try:
         path = os.path.join(td, "out.tif")
@@ -461,6 +500,25 @@ def run_s4(case):
     return r
 
 
+def gen_s8(tier):
+    def g():
+        for memory in MEMORY:
+            for comp in ("none", "deflate", "zstd", "lzw"):
+                for layout in ("YX", ("YXS", 3), ("SYX", 2)):
+                    for yx, sc in (((37, 50), (16, 16)), ((64, 96), (16, 16)), ((33, 40), (32, 32)), ((20, 37), (8, 8))):
+                        yield ("s8", memory, comp, layout, yx, sc)
+
+    return g
+
+
+def run_s8(case):
+    _, memory, comp, layout, yx, sc = case
+    lk = layout if layout == "YX" else f"{layout[0]}{layout[1]}"
+    r = R(outcome=f"s8:{memory}:{comp}:{lk}")
+    write_and_inspect(str(case), yx, layout, "int16", "nodata", [16], sc, r, f"memory-{memory}:{comp}:{lk}", compression=comp, _memory=memory)
+    return r
+
+
 def gen_s6(tier):
     def g():
         shapes = ((40, 37), (70, 50), (17, 31))
@@ -625,6 +683,8 @@ def slices(tier):
         e1.Slice("s2-dtype-compression", gen_s2(tier), run_s2, "dtypes x compression x predictor x nodata"),
         e1.Slice("s3-blocksize-chunking", gen_s3(tier), run_s3, "blocksize lists x source chunkings"),
         e1.Slice("s4-spill", gen_s4(tier), run_s4, "spill size x writes per chunk x parts dir"),
+        e1.Slice("s8-source-memory-layout", gen_s8(tier), run_s8,
+                 "memory layout of the source blocks (C, Fortran source, Fortran-contiguous blocks, copies, lazy transpose, reversed view) x codec x band layout x chunking"),
         e1.Slice("s6-rewrite-destination", gen_s6(tier), run_s6, "two saves to the same destination path in sequence"),
         e1.Slice("s7-joint-saves", gen_s7(tier), run_s7, "2-3 saves to different destinations computed in one dask.compute call"),
         e1.Slice("s5-task-orders", gen_s5(tier), run_s5, "E3b: all task orders within the deviation bound (8 partitions "
